@@ -2,26 +2,39 @@ package rules
 
 import "xkvverif/internal/core"
 
+type propFn = func(*core.Prog, *core.Report)
+
+func with(base propFn, extra ...propFn) propFn {
+	return func(p *core.Prog, rep *core.Report) {
+		base(p, rep)
+		for _, e := range extra {
+			e(p, rep)
+		}
+	}
+}
+
 // Registry maps a property id to the function that adds its obligations to the report.
 var Registry = map[string]func(*core.Prog, *core.Report){
-	"C01": C01,
-	"C02": C02,
-	"C03": C03,
-	"C04": C04,
-	"C05": C05,
-	"C06": C06,
-	"C07": C07,
-	"C08": C08,
-	"C09": C09,
+	"C01": with(C01, frameGroup, batchGroup),
+	"C02": with(C02, frameGroup, batchGroup, mergeGroup),
+	"C03": with(C03, frameGroup, batchGroup, mergeGroup),
+	"C04": with(C04, batchGroup, frameGroup),
+	"C05": with(C05, batchGroup),
+	"C06": with(C06, mergeGroup),
+	"C07": with(C07, mergeGroup),
+	"C08": with(C08, func(p *core.Prog, rep *core.Report) {
+		newVF(p, rep).vf2(nil)
+	}),
+	"C09": with(C09, pool2SingleRelease, bt1PutType),
 	"C10": C10,
-	"C11": C11,
-	"C12": C12,
+	"C11": with(C11, frameGroup),
+	"C12": with(C12, frameGroup),
 	"C13": C13,
 	"C14": C14,
-	"C15": C15,
+	"C15": with(C15, pool2SingleRelease, rt2Decoded),
 	"C16": C16,
-	"C17": C17,
-	"C18": C18,
-	"C19": C19,
+	"C17": with(C17, bt3FlushLoopComplete),
+	"C18": with(C18, mergeGroup),
+	"C19": with(C19, batchGroup),
 	"C20": C20,
 }
